@@ -1,6 +1,7 @@
 package movesim
 
 import (
+	"mltwist/internal/state/memory"
 	"fmt"
 	"mltwist/internal/consoleui/verifsim/core"
 	"mltwist/internal/consoleui/verifsim/refeval"
@@ -413,6 +414,13 @@ func (e *Engine) Execute(tr core.Trace, ctx *core.Ctx) {
 	mk := func() (*deps.Code, error) {
 		cp := make([]parser.Instruction, len(instrs))
 		copy(cp, instrs)
+		if t.Shuffle != 0 {
+			r := core.NewRand(t.Shuffle)
+			for i := len(cp) - 1; i > 0; i-- {
+				j := r.Intn(i + 1)
+				cp[i], cp[j] = cp[j], cp[i]
+			}
+		}
 		return deps.NewCode(model.Addr(t.Entry), cp)
 	}
 	var code *deps.Code
@@ -805,6 +813,18 @@ func (s *sim) regKeys() []string {
 func (s *sim) runBlock(code *deps.Code, addr uint64, n int, seed uint64, end ...uint64) (o outcome) {
 	prov := &provider{seed: seed}
 	st := state.New()
+	if s.t.Layered {
+		for _, rs := range s.sets {
+			for _, set := range []map[string]bool{rs.memR, rs.memW} {
+				for k := range set {
+					if _, ok := st.Mems[expr.Key(k)]; !ok {
+						base, _ := memory.NewBytes(nil)
+						st.Mems[expr.Key(k)] = memory.NewOverlay(base, memory.NewSparse())
+					}
+				}
+			}
+		}
+	}
 	for _, k := range s.regKeys() {
 		st.Regs.Store(expr.Key(k), prov.Register(expr.Key(k), 8), 8)
 	}
